@@ -4,8 +4,10 @@ import (
 	"fmt"
 	"strconv"
 	"strings"
+	"sync"
 	"testing"
 	"testing/synctest"
+	"time"
 
 	"verif/harness/hx"
 )
@@ -44,6 +46,7 @@ type caseState struct {
 	opens     [2]int            // number of open steps per side (k-th open has a known identifier)
 	openID    map[int]uint64    // op index -> identifier its open message carries
 	deadlines map[string]int    // "<side>/<id>/<r|w>" -> absolute ms of an armed future deadline
+	prog      *progress
 	muxClosed bool
 	queued    [2]int   // inbound streams delivered to a side and not yet taken by an accept
 	problems  []string // oracle findings (C25 exits)
@@ -56,7 +59,9 @@ func (cs *caseState) do(tok string) string {
 		cs.opens[side]++
 		cs.openID[len(cs.tr.Ops())] = uint64(2*cs.opens[side] - 1 + side)
 	}
+	cs.prog.begin(tok)
 	canon, out := cs.tr.Step(tok)
+	cs.prog.end(canon, out)
 	cs.toks = append(cs.toks, canon)
 	cs.outs = append(cs.outs, out)
 	cs.counts[strings.SplitN(tok, ":", 2)[0]]++
@@ -404,7 +409,63 @@ type TraceResult struct {
 	Trace    *Trace
 	Problems []string
 	Panic    string
+	TimedOut bool
 	Counts   map[string]int
+}
+
+// progress is what a trace case has done so far, readable from outside the
+// bubble when the case never finishes (goroutines stuck on locks are not
+// "durably blocked", so the bubble cannot detect that deadlock itself).
+type progress struct {
+	mu      sync.Mutex
+	cfg     string
+	toks    []string
+	outs    []string
+	pending string
+}
+
+func (p *progress) begin(tok string) {
+	p.mu.Lock()
+	p.pending = tok
+	p.mu.Unlock()
+}
+
+func (p *progress) end(canon, out string) {
+	p.mu.Lock()
+	p.toks = append(p.toks, canon)
+	p.outs = append(p.outs, out)
+	p.pending = ""
+	p.mu.Unlock()
+}
+
+func (p *progress) snapshot() (string, string) {
+	p.mu.Lock()
+	defer p.mu.Unlock()
+	toks := append([]string(nil), p.toks...)
+	outs := append([]string(nil), p.outs...)
+	if p.pending != "" {
+		toks = append(toks, p.pending)
+		outs = append(outs, "hang")
+	}
+	return "T " + p.cfg + " " + strings.Join(toks, " "), strings.Join(outs, " ")
+}
+
+// traceWatchdog bounds the real time of one trace case.
+const traceWatchdog = 30 * time.Second
+
+// RunTrace runs one trace case under a real-time watchdog.
+func RunTrace(t *testing.T, r *hx.Rand, prof Profile, steps int, replay []string) TraceResult {
+	prog := &progress{}
+	ch := make(chan TraceResult, 1)
+	go func() { ch <- runTraceInner(t, r, prof, steps, replay, prog) }()
+	select {
+	case res := <-ch:
+		return res
+	case <-time.After(traceWatchdog):
+		line, out := prog.snapshot()
+		return TraceResult{Line: line, Out: out, TimedOut: true, Counts: map[string]int{},
+			Panic: fmt.Sprintf("deadlock: trace case did not finish within %v (calls blocked for good)", traceWatchdog)}
+	}
 }
 
 func cfgFor(r *hx.Rand, prof Profile) Cfg {
@@ -445,7 +506,7 @@ func (c Cfg) effective() Cfg {
 
 // RunTrace runs one trace case in a synctest bubble: either a replay of the
 // given tokens or a random program of about `steps` steps.
-func RunTrace(t *testing.T, r *hx.Rand, prof Profile, steps int, replay []string) (res TraceResult) {
+func runTraceInner(t *testing.T, r *hx.Rand, prof Profile, steps int, replay []string, prog *progress) (res TraceResult) {
 	res.Counts = map[string]int{}
 	defer func() {
 		if p := recover(); p != nil {
@@ -462,9 +523,12 @@ func RunTrace(t *testing.T, r *hx.Rand, prof Profile, steps int, replay []string
 		} else {
 			ca, cb = cfgFor(r, prof), cfgFor(r, prof)
 		}
+		prog.mu.Lock()
+		prog.cfg = ca.String() + " " + cb.String()
+		prog.mu.Unlock()
 		tr := NewTrace(ca, cb)
 		tr.Cfg = [2]Cfg{ca.effective(), cb.effective()}
-		cs := &caseState{tr: tr, r: r, prof: prof, counts: res.Counts,
+		cs := &caseState{tr: tr, r: r, prof: prof, counts: res.Counts, prog: prog,
 			nextByte: [2]map[uint64]int{{}, {}}, openID: map[int]uint64{}, deadlines: map[string]int{}}
 		res.Trace = tr
 		if replay != nil {
